@@ -545,3 +545,37 @@ impl Marlin {
         }
 //@end
 }
+// the scheme-level entry points delegate to the generic Marlin code above
+pub struct MarlinKZG10;
+impl MarlinKZG10 {
+//@fn id=marlin_pc.open_combinations file=poly-commit/src/marlin/marlin_pc/mod.rs scope="impl<E, P> PolynomialCommitment<E::ScalarField, P> for MarlinKZG10<E, P>" name=open_combinations props=C06,C04,C17
+    fn open_combinations<'a>(ck: &CK, lc_s: Vec<&'a LinearCombination>, polynomials: Vec<&'a LabeledPolynomial>, commitments: Vec<&'a LabeledCommitment<Commitment>>, query_set: &BTreeSet<(String, (String, Pt))>, sponge: &mut Sponge, states: Vec<&'a St>, rng: Option<&mut Rng>) -> (res: Result<BatchLCProof, Error>)
+    ensures
+        moc_post(ck, lc_s@, polynomials@, commitments@, query_set@, states@, old(sponge).st@, rng_in(rng), res, final(sponge).st@),   // name=marlin_pc.open_combinations.is_the_generic_marlin_prover props=C06,C04,C17
+//@body
+//@end
+//@fn id=marlin_pc.check_combinations file=poly-commit/src/marlin/marlin_pc/mod.rs scope="impl<E, P> PolynomialCommitment<E::ScalarField, P> for MarlinKZG10<E, P>" name=check_combinations props=C06,C05,C04,C17,C02
+    fn check_combinations<'a>(vk: &VK, lc_s: Vec<&'a LinearCombination>, commitments: Vec<&'a LabeledCommitment<Commitment>>, query_set: &BTreeSet<(String, (String, Pt))>, evaluations: &BTreeMap<(String, Pt), Fr>, proof: &BatchLCProof, sponge: &mut Sponge, rng: &mut Rng) -> (res: Result<bool, Error>)
+    ensures
+        mcc_post(vk, lc_s@, commitments@, query_set@, evaluations@, proof, old(sponge).st@, old(rng).id@, old(rng).pos@, res, final(sponge).st@),   // name=marlin_pc.check_combinations.is_the_generic_marlin_verifier props=C06,C05,C04,C17,C02
+//@body
+//@end
+}
+
+// the scheme-level entry points delegate to the generic Marlin code above
+pub struct MarlinPST13;
+impl MarlinPST13 {
+//@fn id=pst13.open_combinations file=poly-commit/src/marlin/marlin_pst13_pc/mod.rs scope="impl<E, P> PolynomialCommitment<E::ScalarField, P> for MarlinPST13<E, P>" name=open_combinations props=C06,C04,C17
+    fn open_combinations<'a>(ck: &CK, linear_combinations: Vec<&'a LinearCombination>, polynomials: Vec<&'a LabeledPolynomial>, commitments: Vec<&'a LabeledCommitment<Commitment>>, query_set: &BTreeSet<(String, (String, Pt))>, sponge: &mut Sponge, states: Vec<&'a St>, rng: Option<&mut Rng>) -> (res: Result<BatchLCProof, Error>)
+    ensures
+        moc_post(ck, linear_combinations@, polynomials@, commitments@, query_set@, states@, old(sponge).st@, rng_in(rng), res, final(sponge).st@),   // name=pst13.open_combinations.is_the_generic_marlin_prover props=C06,C04,C17
+//@body
+//@end
+//@fn id=pst13.check_combinations file=poly-commit/src/marlin/marlin_pst13_pc/mod.rs scope="impl<E, P> PolynomialCommitment<E::ScalarField, P> for MarlinPST13<E, P>" name=check_combinations props=C06,C05,C04,C17,C02
+    fn check_combinations<'a>(vk: &VK, linear_combinations: Vec<&'a LinearCombination>, commitments: Vec<&'a LabeledCommitment<Commitment>>, eqn_query_set: &BTreeSet<(String, (String, Pt))>, eqn_evaluations: &BTreeMap<(String, Pt), Fr>, proof: &BatchLCProof, sponge: &mut Sponge, rng: &mut Rng) -> (res: Result<bool, Error>)
+    ensures
+        mcc_post(vk, linear_combinations@, commitments@, eqn_query_set@, eqn_evaluations@, proof, old(sponge).st@, old(rng).id@, old(rng).pos@, res, final(sponge).st@),   // name=pst13.check_combinations.is_the_generic_marlin_verifier props=C06,C05,C04,C17,C02
+//@body
+//@end
+}
+
